@@ -346,6 +346,93 @@ pub fn check_names(w: &str, stats: &mut Stats) -> Vec<Failure> {
     fails
 }
 
+/// whole projects (C01's generator: unit structs, skipped fields, naming-case settings, renames,
+/// validators, events, channels) generated in both modes: the same set of declared names and,
+/// per struct and parameter object, the same keys
+pub fn check_project_modes(p: &crate::gen::project::Proj, stats: &mut Stats) -> Vec<Failure> {
+    let files = p.render();
+    for (path, s) in &files {
+        must_parse(path, s);
+    }
+    let cfg_n = Cfg { mode: "none".into(), ..p.cfg.clone() };
+    let cfg_z = Cfg { mode: "zod".into(), ..p.cfg.clone() };
+    let out_n = generate(&files, &cfg_n);
+    let out_z = generate(&files, &cfg_z);
+    stats.eval();
+    let interesting = p.structs.iter().any(|s| s.unit || s.fields.iter().all(|f| f.skip) || s.rename_all.is_some()) || p.cfg.field_case.is_some() || p.cfg.param_case.is_some();
+    if interesting {
+        stats.nontrivial(&format!("{:?}{:?}", files, p.cfg.to_json()));
+    }
+    for f in &p.features {
+        if f.starts_with("has=unit") || f.starts_with("has=field_case") || f.starts_with("has=param_case") {
+            stats.label(f);
+        }
+    }
+    if p.structs.iter().any(|s| !s.unit && s.fields.iter().all(|f| f.skip)) {
+        stats.label("has=struct_without_visible_fields");
+    }
+    let mut tags: Vec<String> = vec!["sub=project_modes".to_string()];
+    if p.cfg.field_case.is_some() {
+        tags.push("has=field_case".into());
+    }
+    if p.structs.iter().any(|s| s.unit) {
+        tags.push("has=unit_struct".into());
+    }
+    let case = json!({"config": p.cfg.to_json(), "files": files.iter().map(|(p, s)| json!({"path": p, "content": s})).collect::<Vec<_>>()});
+    for (o, m) in [(&out_n, "none"), (&out_z, "zod")] {
+        if let Err(e) = &o.result {
+            return vec![Failure::new("tool_error").tags(tags).tag(format!("mode={}", m)).observed(e.clone()).expected("generation succeeds").case(case)];
+        }
+    }
+    let pn = tsx::parse(out_n.file("types.ts").unwrap_or(""));
+    let pz = tsx::parse(out_z.file("types.ts").unwrap_or(""));
+    if !pn.errors().is_empty() || !pz.errors().is_empty() {
+        // a file that does not parse is C01's finding, not a difference between the modes
+        stats.label("skipped=types_ts_does_not_parse");
+        return vec![];
+    }
+    let mut fails = vec![];
+    let mk = |kind: &str, obs: String, exp: String| Failure::new(kind).tags(tags.clone()).observed(obs).expected(exp).case(case.clone());
+    let names = |p: &tsx::Parsed, zod: bool| -> std::collections::BTreeSet<String> {
+        let mut out = std::collections::BTreeSet::new();
+        for (name, is_type, is_value, _) in p.declared() {
+            if is_type {
+                out.insert(name.to_string());
+            } else if zod && is_value {
+                out.insert(name.strip_suffix("Schema").unwrap_or(&name).to_string());
+            }
+        }
+        out
+    };
+    let a = names(&pn, false);
+    let b = names(&pz, true);
+    let only_plain: Vec<&String> = a.difference(&b).collect();
+    let only_zod: Vec<&String> = b.difference(&a).collect();
+    if !only_plain.is_empty() || !only_zod.is_empty() {
+        fails.push(mk("declared_names_differ", format!("only in plain mode: {:?}; only in zod mode: {:?}", only_plain, only_zod), "the same set of type and parameter-object names in both modes".into()));
+    }
+    // keys of every struct and parameter object that both modes declare
+    let enum_names: std::collections::BTreeSet<&str> = p.enums.iter().map(|e| e.name.as_str()).collect();
+    for name in a.intersection(&b) {
+        if enum_names.contains(name.as_str()) || pn.interface(name).is_none() {
+            continue;
+        }
+        let kn = super::c04::keys_of_type(&pn, name);
+        let kz = super::c04::keys_of_type(&pz, name);
+        if let (Ok(x), Ok(y)) = (&kn, &kz) {
+            let xs: Vec<&String> = x.keys().collect();
+            let ys: Vec<&String> = y.keys().collect();
+            if xs != ys {
+                fails.push(mk("keys_differ", format!("zod: {:?} ⟸ {}", ys, pz.src_of(&format!("{}Schema", name)).unwrap_or_default()), format!("plain: {:?} ⟸ {}", xs, pn.src_of(name).unwrap_or_default())).tag(format!("decl={}", name)));
+            }
+        } else {
+            stats.label("skipped=keys_unreadable");
+        }
+    }
+    stats.sample(|| json!({"sub": "project_modes", "config": p.cfg.to_json(), "names": a}));
+    fails
+}
+
 fn random_case(t: &mut Tape) -> Ty {
     let depth = t.range(1, 4);
     let structs = vec![STRUCT.to_string()];
@@ -388,6 +475,12 @@ pub fn run(ctx: &Ctx) {
         let ty = random_case(tape);
         check_type(&ty, tape, n_values, stats)
     });
+    let cases = ctx.tier.pick(1500, 60000);
+    ctx.search("c10.project_modes", cases, 400, |tape, stats| {
+        let mut avoided = 0;
+        let p = crate::gen::project::random_project(tape, true, &mut avoided);
+        check_project_modes(&p, stats)
+    });
 }
 
 pub fn replay(check: &str, input: &Value, stats: &mut Stats) -> Option<Vec<Failure>> {
@@ -408,6 +501,12 @@ pub fn replay(check: &str, input: &Value, stats: &mut Stats) -> Option<Vec<Failu
             Some(fails)
         }
         "c10.names" => Some(check_names(input["wrap"].as_str()?, stats)),
+        "c10.project_modes" => {
+            let mut tape = Tape::new(super::tape_of(input));
+            let mut avoided = 0;
+            let p = crate::gen::project::random_project(&mut tape, true, &mut avoided);
+            Some(check_project_modes(&p, stats))
+        }
         "c10.tree" => {
             let mut tape = Tape::new(super::tape_of(input));
             let ty = random_case(&mut tape);
